@@ -2,8 +2,13 @@
 package main
 
 import (
+	"net/http"
+	"net/url"
+
 	"context"
 	"fmt"
+	"google.golang.org/grpc"
+	"google.golang.org/grpc/credentials/insecure"
 	"os"
 	"reflect"
 	"sort"
@@ -71,6 +76,8 @@ type optAtoms struct {
 	gzip        *bool
 	timeout     time.Duration
 	noRetry     bool
+	dialConn    bool // gRPC: the caller dials the connection itself and hands it over (WithGRPCConn)
+	proxy       bool // HTTP: a proxy function is configured (it answers "no proxy"), which makes the client clone its transport
 }
 
 type exp struct {
@@ -85,7 +92,13 @@ func build(kind string, a optAtoms) (*exp, error) {
 	switch kind {
 	case "otlptracegrpc":
 		var o []otlptracegrpc.Option
-		if a.endpoint != "" {
+		if a.dialConn {
+			conn, cerr := grpc.NewClient(a.endpoint, grpc.WithTransportCredentials(insecure.NewCredentials()))
+			if cerr != nil {
+				return nil, cerr
+			}
+			o = append(o, otlptracegrpc.WithGRPCConn(conn))
+		} else if a.endpoint != "" {
 			o = append(o, otlptracegrpc.WithEndpoint(a.endpoint))
 		}
 		if a.endpointURL != "" {
@@ -117,6 +130,9 @@ func build(kind string, a optAtoms) (*exp, error) {
 		}, e.Shutdown}, nil
 	case "otlptracehttp":
 		var o []otlptracehttp.Option
+		if a.proxy {
+			o = append(o, otlptracehttp.WithProxy(func(*http.Request) (*url.URL, error) { return nil, nil }))
+		}
 		if a.endpoint != "" {
 			o = append(o, otlptracehttp.WithEndpoint(a.endpoint))
 		}
@@ -154,7 +170,13 @@ func build(kind string, a optAtoms) (*exp, error) {
 		}, e.Shutdown}, nil
 	case "otlpmetricgrpc":
 		var o []otlpmetricgrpc.Option
-		if a.endpoint != "" {
+		if a.dialConn {
+			conn, cerr := grpc.NewClient(a.endpoint, grpc.WithTransportCredentials(insecure.NewCredentials()))
+			if cerr != nil {
+				return nil, cerr
+			}
+			o = append(o, otlpmetricgrpc.WithGRPCConn(conn))
+		} else if a.endpoint != "" {
 			o = append(o, otlpmetricgrpc.WithEndpoint(a.endpoint))
 		}
 		if a.endpointURL != "" {
@@ -182,6 +204,9 @@ func build(kind string, a optAtoms) (*exp, error) {
 		return &exp{func(ctx context.Context) error { return e.Export(ctx, metricPayload()) }, e.Shutdown}, nil
 	case "otlpmetrichttp":
 		var o []otlpmetrichttp.Option
+		if a.proxy {
+			o = append(o, otlpmetrichttp.WithProxy(func(*http.Request) (*url.URL, error) { return nil, nil }))
+		}
 		if a.endpoint != "" {
 			o = append(o, otlpmetrichttp.WithEndpoint(a.endpoint))
 		}
@@ -217,7 +242,13 @@ func build(kind string, a optAtoms) (*exp, error) {
 		return &exp{func(ctx context.Context) error { return e.Export(ctx, metricPayload()) }, e.Shutdown}, nil
 	case "otlploggrpc":
 		var o []otlploggrpc.Option
-		if a.endpoint != "" {
+		if a.dialConn {
+			conn, cerr := grpc.NewClient(a.endpoint, grpc.WithTransportCredentials(insecure.NewCredentials()))
+			if cerr != nil {
+				return nil, cerr
+			}
+			o = append(o, otlploggrpc.WithGRPCConn(conn))
+		} else if a.endpoint != "" {
 			o = append(o, otlploggrpc.WithEndpoint(a.endpoint))
 		}
 		if a.endpointURL != "" {
@@ -245,6 +276,9 @@ func build(kind string, a optAtoms) (*exp, error) {
 		return &exp{func(ctx context.Context) error { return e.Export(ctx, logPayload()) }, e.Shutdown}, nil
 	default:
 		var o []otlploghttp.Option
+		if a.proxy {
+			o = append(o, otlploghttp.WithProxy(func(*http.Request) (*url.URL, error) { return nil, nil }))
+		}
 		if a.endpoint != "" {
 			o = append(o, otlploghttp.WithEndpoint(a.endpoint))
 		}
@@ -305,12 +339,16 @@ type xrow struct {
 	opt, spec, gen byte // 'a' absent, 'v' valid, 'i' invalid
 	invalidVariant int
 	dir            byte // compression rows: 0 = specific gzip / generic none, 1 = specific none / generic gzip
+	transport      byte // 0 = the exporter dials for itself; 'c' = gRPC connection supplied by the caller; 'p' = HTTP client with a proxy function
 }
 
 func (r xrow) String() string {
 	d := ""
 	if r.setting == "compression" {
 		d = fmt.Sprintf(" direction=%d", r.dir)
+	}
+	if r.transport != 0 {
+		d += fmt.Sprintf(" transport=%c", r.transport)
 	}
 	return fmt.Sprintf("%s %s option=%c specific-env=%c generic-env=%c%s", r.kind, r.setting, r.opt, r.spec, r.gen, d)
 }
@@ -339,6 +377,20 @@ func exporterRows() []xrow {
 						}
 					}
 				}
+			}
+		}
+	}
+	// the same settings when the transport is not the stock one: a connection the caller dialled (gRPC), a
+	// client whose transport was cloned for a proxy function (HTTP). Only connection options are overridden by
+	// such a transport; headers and timeout still come from the highest-precedence source
+	for _, kind := range exporterKinds {
+		tr := byte('c')
+		if isHTTP(kind) {
+			tr = 'p'
+		}
+		for _, setting := range []string{"headers", "timeout"} {
+			for _, osg := range [][3]byte{{'v', 'a', 'a'}, {'a', 'v', 'a'}, {'a', 'a', 'v'}, {'a', 'v', 'v'}, {'a', 'a', 'a'}} {
+				rows = append(rows, xrow{kind: kind, setting: setting, opt: osg[0], spec: osg[1], gen: osg[2], transport: tr})
 			}
 		}
 	}
@@ -539,6 +591,7 @@ func runExporterRow(k *vf.Case, r xrow) {
 		}
 		defer srv.Close()
 		a.endpoint, a.insecure, a.timeout = srv.Addr, true, 2*time.Second
+		a.dialConn, a.proxy = r.transport == 'c', r.transport == 'p'
 		valSpec, valGen := "", ""
 		expected := map[string]string{}
 		if r.setting == "headers" {
@@ -692,7 +745,7 @@ func runExporterRow(k *vf.Case, r xrow) {
 				k.C.Inconclusive("cannot start collector")
 				return
 			}
-			a := optAtoms{noRetry: true, endpoint: srv.Addr, insecure: true}
+			a := optAtoms{noRetry: true, endpoint: srv.Addr, insecure: true, dialConn: r.transport == 'c', proxy: r.transport == 'p'}
 			if r.opt == 'v' {
 				a.timeout = vals["option"]
 			}
